@@ -1113,7 +1113,11 @@ func (ex *Exec) callBuiltin(caller *frame, fn *ssa.Builtin, args []Value) Value 
 					}
 					ex.P.nChoice++
 					x.LenT = ex.P.newInput(fmt.Sprintf("len(opaque)#%d", ex.P.nChoice), smt.BV(64))
-					ex.P.assert(smt.And(smt.SLe(smt.BVC(64, uint64(min)), x.LenT), smt.SLt(x.LenT, smt.BVC(64, 1<<20))))
+					hi := uint64(1 << 20)
+					if x.MaxUnk > 0 {
+						hi = uint64(min + x.MaxUnk + 1)
+					}
+					ex.P.assert(smt.And(smt.SLe(smt.BVC(64, uint64(min)), x.LenT), smt.SLt(x.LenT, smt.BVC(64, hi))))
 				}
 				return x.LenT
 			}
